@@ -154,6 +154,9 @@ type UciRunOut struct {
 	// LoopPanics are panics of the protocol loop goroutine, with the line that caused them.
 	LoopPanics []LoopPanic
 	EndPending bool // a go was still unanswered when the session was closed
+	Faults     map[string]int
+	Probes     map[string]int
+	SigHash    uint64 // interleaving signature
 	LeftTimers int  // timer goroutines still alive two fake hours after the session
 	LeftSearch bool // search goroutine still alive
 	CleanExit  bool
@@ -190,7 +193,7 @@ func RunUciScript(sc *Scenario) *UciRunOut {
 	sim.MonitorTerm = true
 	SetCurrent(sim)
 	defer SetCurrent(nil)
-	out := &UciRunOut{Sim: sim, StepIn: make([]int, len(sc.Steps))}
+	out := &UciRunOut{Sim: sim, StepIn: make([]int, len(sc.Steps)), Faults: map[string]int{}, Probes: map[string]int{}, SigHash: 1469598103934665603}
 	us := NewUciSession(sim)
 	poll := sc.PollUs
 	if poll <= 0 {
@@ -242,6 +245,7 @@ func RunUciScript(sc *Scenario) *UciRunOut {
 				wantReady++
 			}
 			nIn := countIn(us)
+			out.noteArrival(sim, us, st, tok, i > 0 && st.GapUs == 0)
 			if !send(i, st.Line) {
 				continue
 			}
@@ -373,4 +377,95 @@ func clip(s string, n int) string {
 		return s[:n] + "..."
 	}
 	return s
+}
+
+// Search phases used for the interleaving signature.
+const (
+	phIdle = iota
+	phJustEnded // < 5 fake ms after the previous search ended
+	phIter1
+	phIterLow  // iterations 2-3
+	phIterHigh // deeper
+	phBusyWait
+)
+
+//go:norace
+func simPhase(s *Sim, iter int) int {
+	if s.SearchActive {
+		if s.BusyWaiting {
+			return phBusyWait
+		}
+		switch {
+		case iter <= 1:
+			return phIter1
+		case iter <= 3:
+			return phIterLow
+		}
+		return phIterHigh
+	}
+	if s.LastEndT > 0 && s.Now()-s.LastEndT < 5_000_000 {
+		return phJustEnded
+	}
+	return phIdle
+}
+
+// noteArrival classifies the moment a command reaches the engine: search
+// phase and number of live timers. It feeds the interleaving signature and
+// the fault/probe counters (a fault counts only when it actually fires).
+func (out *UciRunOut) noteArrival(sim *Sim, us *UciSession, st *Step, tok []string, burst bool) {
+	if len(tok) == 0 {
+		return
+	}
+	ph := simPhase(sim, us.tr.iterNow())
+	tl := simTimers(sim)
+	if tl > 3 {
+		tl = 3
+	}
+	kind := tok[0]
+	h := out.SigHash
+	for _, c := range []byte(kind) {
+		h = (h ^ uint64(c)) * 1099511628211
+	}
+	h = (h ^ uint64(ph)) * 1099511628211
+	h = (h ^ uint64(tl)) * 1099511628211
+	out.SigHash = h
+	active := ph >= phIter1
+	switch kind {
+	case "stop":
+		if active {
+			out.Faults["F1_cancel_running"]++
+			switch ph {
+			case phIter1:
+				out.Probes["stop_in_iteration_1"]++
+			case phBusyWait:
+				out.Probes["stop_in_busy_wait"]++
+			}
+		}
+	case "go":
+		if ph == phJustEnded {
+			out.Faults["F4_go_within_5ms_of_result"]++
+		}
+		if tl > 0 {
+			out.Probes["timer_alive_at_next_go"]++
+		}
+		if burst {
+			out.Faults["F4_burst"]++
+		}
+	case "ponderhit":
+		if active {
+			out.Faults["F5_ponderhit_running"]++
+			if ph == phBusyWait {
+				out.Probes["ponderhit_after_internal_completion"]++
+			}
+		} else {
+			out.Faults["F5_ponderhit_idle"]++
+		}
+	case "isready":
+		if active {
+			out.Probes["isready_mid_search"]++
+		}
+	}
+	if st.Op == "damaged" {
+		out.Faults["F7_damaged_line"]++
+	}
 }
